@@ -847,8 +847,21 @@ Fixpoint insert_by_sid (o : N * xval) (l : list (N * xval)) : list (N * xval) :=
 Definition d_stream (x : xval) : option (N * bytes * bool) :=
   match x with
   | XL [XN sid; XB path; c] => option_map (fun c' => (sid, path, c')) (d_bool c)
+  | XL [XN sid; XB path; c; _] => option_map (fun c' => (sid, path, c')) (d_bool c)
   | _ => None
   end.
+(** (L sid class cacheable (L [ms])): a stream the client cancels (RST_STREAM) [ms] after the request — its task may run
+    none, one or both of its blocks on the server; whatever it does, it is not answered (not part of the output), and
+    by [stream_independence] it changes no other stream's answer: the model lets it run like the others *)
+Definition stream_cancelled (x : xval) : bool :=
+  match x with XL [_; _; _; XL (_ :: _)] => true | _ => false end.
+Definition cancelled_sids (ss : xval) : list N :=
+  match ss with
+  | XL l => flat_map (fun x => if stream_cancelled x then match x with XL (XN sid :: _) => [sid] | _ => [] end else []) l
+  | _ => []
+  end.
+Definition drop_cancelled (ss : xval) (ws : list (N * xval)) : list (N * xval) :=
+  filter (fun o => negb (existsb (N.eqb (fst o)) (cancelled_sids ss))) ws.
 Definition run_burst (p : proto) (x : xval) : xval :=
   match x, d_case x with
   | XL [_; _; _; _; _; _; ss; sc], Some (checked, ops, alt, e416, exs) =>
@@ -872,7 +885,7 @@ Definition run_burst (p : proto) (x : xval) : xval :=
                                                     (ex_fut e))
                                 | None => bad_input
                                 end)) outs in
-          XL (map (fun o => XL [XN (fst o); snd o]) (fold_right insert_by_sid [] wires))
+          XL (map (fun o => XL [XN (fst o); snd o]) (drop_cancelled ss (fold_right insert_by_sid [] wires)))
       | _, _ => bad_input
       end
   | _, _ => bad_input
@@ -885,7 +898,7 @@ Definition run_burst_spec (p : proto) (x : xval) : xval :=
       | Some strs =>
           let wires := map (fun '((sid, _, _), e) => (sid, x_outcome x_wreply (send_ex checked ops alt e416 p true e)))
                            (combine strs exs) in
-          XL (map (fun o => XL [XN (fst o); snd o]) (fold_right insert_by_sid [] wires))
+          XL (map (fun o => XL [XN (fst o); snd o]) (drop_cancelled ss (fold_right insert_by_sid [] wires)))
       | None => bad_input
       end
   | _, _ => bad_input
